@@ -742,6 +742,25 @@ func runC16(args []string) int {
 			}
 		}
 	}
+	// ---- dishonest prover on the emulated scalar multiplication with complete arithmetic (compiled R1CS, forged result hint)
+	for _, v := range []string{"same-x-arbitrary-y", "P-itself", "zero-scalar-arbitrary-result", "P-256:same-x-arbitrary-y", "P-256:zero-scalar-arbitrary-result"} {
+		var cls, msg string
+		cname := "secp256k1"
+		if strings.HasPrefix(v, "P-256:") {
+			cname = "P-256"
+			cls, msg, _ = forgedScalarMulCompleteG[emparams.P256Fp, emparams.P256Fr](rng, runners[1].wc, strings.TrimPrefix(v, "P-256:"))
+		} else {
+			cls, msg, _ = forgedScalarMulComplete(rng, runners[0].wc, v)
+		}
+		rep.Eval("sw-forge|"+v, true)
+		rep.Count("sw-forge:" + cname + ":" + cls)
+		desc := c16Desc{Curve: cname, Op: "ScalarMul(complete)", Class: "forged result hint: " + v, Detail: msg}
+		if cls == "ok" {
+			rep.Fail("c16:forged-accepted:sw-emulated:scalarmul-complete:"+v, "sw_emulated ScalarMul with complete arithmetic accepts a hinted result that is not [s]P ("+v+")", desc)
+		} else if cls == "panic" || cls == "compile-error" {
+			rep.Fail("c16:"+cls+":sw-forge", msg, desc)
+		}
+	}
 	// ---- ECDSA
 	ecdsaRun := func(name string, wc *wcurve, run func(r, s, m *big.Int, pub *wpt) string) {
 		d := new(big.Int).Add(rng.Big(new(big.Int).Sub(wc.n, big.NewInt(2))), big.NewInt(1))
